@@ -273,7 +273,66 @@ where
     }
 }
 
+/// The whole daemon stack (VhostUserDaemon + the crate's request handler) in front of a device whose
+/// `update_memory` callback fails: with REPLY_ACK negotiated the frontend call that caused it must
+/// return an error, for each of the three memory operations.
+fn daemon_failures(cfg: &Cfg) {
+    use vhost::vhost_user::VhostUserFrontend;
+    use vhost::VhostBackend;
+    type V = VringRwLock<dmn::Mem>;
+    for op in ["set_mem_table", "add_mem_region", "remove_mem_region"] {
+        let bc = dmn::BCfg { num_queues: 1, masks: vec![1], ..dmn::BCfg::default() };
+        let mut s: dmn::Sess<V> = dmn::Sess::new(bc);
+        let mut fe = s.connect(1);
+        let pf = s.be.cfg.protocol_features | common::spec::PF_REPLY_ACK;
+        if let Err(e) = dmn::negotiate(&mut fe, dmn::NEG_FEATURES_PF | 3, pf) {
+            report::inconclusive(&format!("negotiate: {e}"));
+            return;
+        }
+        let a = dmn::Reg::new(0x10_0000, 0x4000, 0x7000_0000, 0);
+        let b = dmn::Reg::new(0x20_0000, 0x4000, 0x7100_0000, 0);
+        // set-up steps succeed
+        let setup: Result<(), String> = (|| {
+            if op != "set_mem_table" {
+                fe.set_mem_table(&[a.info()]).map_err(|e| format!("{e:?}"))?;
+            }
+            if op == "remove_mem_region" {
+                fe.add_mem_region(&b.info()).map_err(|e| format!("{e:?}"))?;
+            }
+            Ok(())
+        })();
+        if let Err(e) = setup {
+            report::inconclusive(&format!("daemon-failures set-up for {op}: {e}"));
+            continue;
+        }
+        let before = s.be.st.lock().unwrap().callbacks.iter().filter(|c| c.0 == "update_memory").count();
+        s.be.st.lock().unwrap().fail_update_memory = true;
+        let r = match op {
+            "set_mem_table" => fe.set_mem_table(&[a.info()]),
+            "add_mem_region" => fe.add_mem_region(&b.info()),
+            _ => fe.remove_mem_region(&b.info()),
+        };
+        let after = s.be.st.lock().unwrap().callbacks.iter().filter(|c| c.0 == "update_memory").count();
+        report::eval(1);
+        report::count("daemon.failing_device_callback", 1);
+        report::distinct_str(&format!("daemon-fail:{op}"));
+        let detail = jo! {"operation" => op, "device_callback" => "update_memory", "callback_invocations_during_the_call" => after - before, "frontend_call" => format!("{:?}", r.as_ref().map_err(|e| format!("{e:?}")))};
+        if after == before {
+            report::inconclusive(&format!("daemon-failures {op}: the device callback was not invoked, nothing failed"));
+        } else if r.is_ok() {
+            report::violation(&format!("C03:daemon:{op}:device-callback-failed:success-on-failure"), detail, cfg.replay("daemon-failures"));
+        } else {
+            report::sample(&format!("daemon-fail-{op}"), detail);
+        }
+        drop(fe);
+        let _ = s.daemon.wait();
+    }
+}
+
 pub fn run(cfg: &Cfg) {
+    if cfg.shard == 0 || cfg.only.as_deref() == Some("daemon-failures") {
+        daemon_failures(cfg);
+    }
     report::assume("the recording device implements VhostUserBackendMut; every adapter the library provides for it (Mutex, RwLock, and Arc around both) is driven through the VhostUserBackend trait");
     let mut rng = Rng::new(cfg.seed.wrapping_mul(0xc03d).wrapping_add(cfg.shard));
     for round in 0..cfg.pick(4, 40) {
